@@ -14,6 +14,7 @@ CONSTANTS
     PrefixedWhiteoutLookup = TRUE
     OpaqueByMode = TRUE
     WhiteoutAttr = TRUE
+    MemWhiteoutAttr = TRUE
     WriterDropsToc = TRUE
 INIT GenInit
 NEXT GenNext
